@@ -143,6 +143,7 @@ func inlineStylesInTag(tag string, styles map[string][]options.InlineStyle, bc *
 
 	if styleIndex >= 0 {
 		attrs[styleIndex].Value = mergeInlineStyleValues(attrs[styleIndex].Value, inlineStyle)
+		attrs[styleIndex].HasValue = true // a style attribute written without a value gets one now
 		attrs[styleIndex].Raw = ""
 	} else {
 		attrs = append(attrs, inlineHTMLAttr{
